@@ -1,8 +1,104 @@
 import CM.Lib.Wire
-/-! Driver handler for C01 (stub: not built yet). -/
+import CM.Model.Issue
+/-! Driver handler for C01: validates an implementation history as a run of the LTS
+(every event enabled, observables equal) and judges it by the executable specification. -/
 namespace CM.Drv.C01
-open CM.Wire
+open CM.Wire CM.Issue
 
-def handle (_args _impl : List String) : String := bad
+inductive Item | ev (e : Ev) | fin (p : Nat) (ok : Bool) | problem | begin (p : Nat) | torn
+
+def parseItem (s : String) : Option Item :=
+  match s.splitOn ":" with
+  | ["pre", p] => p.toNat?.map (fun p => .ev (.pre p))
+  | ["acq", p] => p.toNat?.map (fun p => .ev (.acq p))
+  | ["recheck", p] => p.toNat?.map (fun p => .ev (.recheck p))
+  | ["issueBegin", p] => p.toNat?.map (fun p => .ev (.issueBegin p))
+  | ["issueEnd", p, ok] => p.toNat?.map (fun p => .ev (.issueEnd p (ok = "1")))
+  | ["saveOk", p] => p.toNat?.map (fun p => .ev (.saveOk p))
+  | ["saveFail", p, k] => match p.toNat?, k.toNat? with
+      | some p, some k => some (.ev (.saveFail p k))
+      | _, _ => none
+  | ["retry", p] => p.toNat?.map (fun p => .ev (.retry p))
+  | ["giveUp", p] => p.toNat?.map (fun p => .ev (.giveUp p))
+  | ["rel", p] => p.toNat?.map (fun p => .ev (.rel p))
+  | ["fin", p, o] => p.toNat?.map (fun p => .fin p (o = "ok"))
+  | ["PROBLEM"] => some .problem
+  | ["begin", p] => p.toNat?.map (fun p => .begin p)
+  | ["TORN"] => some .torn
+  | _ => none
+
+def parseKind (s : String) : Option (Kind × Bool) :=
+  if s = "obtains" then some (.obtain, false) else if s = "obtaina" then some (.obtain, true)
+  else if s = "renews" then some (.renew, false) else if s = "renewa" then some (.renew, true)
+  else if s = "manages" then some (.manage, false) else none
+
+def mkInit (initial : String) (kinds : List (Kind × Bool)) : St :=
+  { lock := none, stored := if initial = "none" then none else some 0, next := 1
+    pc := fun _ => .start
+    kind := fun p => match kinds[p - 1]? with | some (k, _) => k | none => .obtain
+    async := fun p => match kinds[p - 1]? with | some (_, a) => a | none => false
+    contacted := fun _ => false, issuedBy := fun _ => 0 }
+
+/-- run the LTS over the items; `fin p ok` must find p finished with that outcome -/
+def replay (due : Ver → Bool) : St → List Item → Nat → Except String St
+  | s, [], _ => .ok s
+  | s, .ev e :: r, i =>
+    match step due s e with
+    | some s' => replay due s' r (i + 1)
+    | none => .error s!"stuck@{i}"
+  | s, .fin p ok :: r, i =>
+    if s.pc p = .done ok then replay due s r (i + 1) else .error s!"fin-mismatch@{i}"
+  | _, .problem :: _, i => .error s!"untranslatable@{i}"
+  | s, .begin _ :: r, i => replay due s r (i + 1)
+  | _, .torn :: _, _ => .error "*"
+
+/-- executable specification on the implementation's history alone (no model state):
+issuer calls never overlap; after a complete save of a fresh bundle nobody asks the issuer
+again, and every request that was waiting for the lock at that moment or that arrives
+later finishes successfully. (A request that was in the middle of reading the three-key
+bundle while it was being saved is "in flight": it is neither waiting nor arriving later
+and is not judged here — see DESIGN, C07 notes on the non-atomic bundle.)
+State: who is inside the issuer; is a fresh bundle stored; the in-flight requests. -/
+def specTrace : List Item → Option Nat → Bool → List Nat → List Nat → String
+  | [], _, _, _, _ => "ok"
+  | .begin p :: r, inIssue, fresh, active, exempt => specTrace r inIssue fresh (p :: active) exempt
+  | .ev (.pre p) :: r, inIssue, fresh, active, exempt =>
+    -- after its (last) pre-check a request is waiting for the lock, no longer reading
+    specTrace r inIssue fresh (active.erase p) exempt
+  | .ev (.issueBegin p) :: r, inIssue, fresh, active, exempt =>
+    if inIssue.isSome then "bad:overlapping-issuance"
+    else if fresh then "bad:issuance-after-fresh-save"
+    else specTrace r (some p) fresh active exempt
+  | .ev (.issueEnd _ _) :: r, _, fresh, active, exempt => specTrace r none fresh active exempt
+  | .ev (.saveOk _) :: r, inIssue, _, active, exempt => specTrace r inIssue true active (active ++ exempt)
+  | .fin p ok :: r, inIssue, fresh, active, exempt =>
+    if fresh && !ok && !exempt.contains p then "bad:request-failed-after-fresh-save"
+    else specTrace r inIssue fresh (active.erase p) exempt
+  | _ :: r, inIssue, fresh, active, exempt => specTrace r inIssue fresh active exempt
+
+def handle (args impl : List String) : String :=
+  match args with
+  | ["trace", initial, kinds, evs] =>
+    let ks := (kinds.splitOn ",").filterMap parseKind
+    let items := (evs.splitOn ",").filterMap parseItem
+    if ks.length ≠ (kinds.splitOn ",").length ∨ items.length ≠ (evs.splitOn ",").length then bad else
+    -- version 0 (present initially) is due iff the scenario says so; issued versions are fresh
+    let due : Ver → Bool := fun v => v = 0 && initial = "due"
+    let s0 := mkInit initial ks
+    let model := match replay due s0 items 0 with
+      | .error e => e
+      | .ok s =>
+        let st := match s.stored with | some v => s!"s{v}" | none => "s-"
+        let obs := (List.range ks.length).map (fun i =>
+          let p := i + 1
+          let d := match s.pc p with | .done true => "d1" | .done false => "d0" | _ => "d?"
+          d ++ (if s.contacted p then "c1" else "c0"))
+        st ++ " " ++ String.intercalate "," obs
+    let spec := if impl.isEmpty then "-" else specTrace items none (initial = "fresh") [] []
+    let nIssue := (items.filter (fun | .ev (.issueBegin _) => true | _ => false)).length
+    let nFail := (items.filter (fun | .ev (.issueEnd _ false) => true | .ev (.saveFail _ _) => true | _ => false)).length
+    let nRetry := (items.filter (fun | .ev (.retry _) => true | _ => false)).length
+    reply model spec s!"{initial}:n{ks.length}:i{nIssue}:f{nFail}:r{nRetry}"
+  | _ => bad
 
 end CM.Drv.C01
